@@ -270,7 +270,7 @@ def check(tier, seed):
     R = C.Reporter("C14", tier, seed)
     R.gate = C.proof_gate("C14")
     rng = random.Random(seed)
-    n = 90 if tier == "quick" else 1200
+    n = 60 if tier == "quick" else 1200
     cases = corpus() + [gen_case(rng, tier) for _ in range(n)]
     cases += [gen_case(rng, tier, ks) for ks in ([20, 32] if tier == "quick" else [20, 32] * 8 + list(range(4, 20)))]
     terms, spec_terms = [], []
@@ -292,7 +292,7 @@ def check(tier, seed):
         m = final_mapping(case)
         bind = clist([f"({cb(k)}, {cb(v)})" for k, v in sorted(m.items())])
         spec_terms.append(f"(({cnat(case['ks'])}, {cb(case['default'])}, {bind}), {cobs(aux[-1])})")
-    shard = 6
+    shard = 4
     mism, errs, nsh = C.eval_cases("C14", "cases", IMPORTS, "c14_run", CASE_T, terms, shard=shard)
     m2, e2, nsh2 = C.eval_cases("C14", "spec", IMPORTS, "c14_spec_root", SPEC_T, spec_terms, shard=shard)
     R.shards, R.coq_errors = nsh + nsh2, errs + e2
